@@ -306,6 +306,18 @@ def transpile_stage_tables() -> dict[str, list[str]]:
 	if len(loops) != 1 or [ast.unparse(x) for x in loops[0].body] != [
 			'content = self.transpiler.transpile(self.by_entrypoint(module_path))', 'writer = Writer(self.output_filepath(module_path))', 'writer.put(content)', 'writer.flush()']:
 		raise TranslateError('Runner._run_impl: unrecognised target loop')
+	# one turn of the interactive loop: rebuild_module = assign the source, unload the main module, load it again — unload is NOT inside Modules.load
+	rb = _find_func(tree, 'Interactive', 'rebuild_module')
+	rb_body = [ast.unparse(x) for x in rb.body if not (isinstance(x, ast.Expr) and isinstance(x.value, ast.Constant))]
+	if rb_body != ['self.source_provider.source_code = source_code', 'self.modules.unload(self.source_provider.main_module_path)', 'return self.modules.load(self.source_provider.main_module_path)']:
+		raise TranslateError(f'Interactive.rebuild_module: unrecognised body {rb_body}')
+	run = _find_func(tree, 'Interactive', 'run')
+	inner_try = [n for n in ast.walk(run) if isinstance(n, ast.Try) and not n.finalbody]
+	if len(inner_try) != 1:
+		raise TranslateError('Interactive.run: inner try not found')
+	turn = [ast.unparse(x) for x in inner_try[0].body[:2]]
+	if turn != ["main_module = self.rebuild_module('\\n'.join(lines))", 'result = self.transpiler.transpile(main_module.entrypoint)'] or any(not ast.unparse(x).startswith('print(') for x in inner_try[0].body[2:]):
+		raise TranslateError(f'Interactive.run: unrecognised turn {[ast.unparse(x) for x in inner_try[0].body]}')
 	main = [x for x in tree.body if isinstance(x, ast.If) and ast.unparse(x.test) == "__name__ == '__main__'"]
 	if len(main) != 1 or len(main[0].body) != 1 or not isinstance(main[0].body[0], ast.Try):
 		raise TranslateError('bin/transpile.py: `if __name__ == "__main__": try …` not found')
@@ -409,10 +421,124 @@ def render_tables() -> dict[str, bool]:
 
 
 # ---------------------------------------------------------------------------------------------
+# audit of EVERY except clause
+
+
+AUDIT_EXCLUDE_DIRS = ('compatible', 'test')
+# stand-alone developer tools with their own `__main__`: not on a path from Modules.load / ITranspiler.transpile / Interactive.run / App.run
+AUDIT_EXCLUDE_FILES = ('bin/j2_check.py', 'bin/gram_check.py', 'bin/ast_check.py', 'bin/analyze.py')
+
+
+def _site_ident(rel: str, qual: str) -> str:
+	import re
+	base = re.sub(r'[^A-Za-z0-9]+', '_', f"{rel[:-3]}__{qual}").strip('_')
+	return base
+
+
+def _qualnames(tree: ast.AST) -> dict[ast.AST, str]:
+	"""innermost enclosing function/class chain of every node (`<module>` at top level)"""
+	out: dict[ast.AST, str] = {}
+
+	def walk(node: ast.AST, chain: list[str]) -> None:
+		for child in ast.iter_child_nodes(node):
+			if isinstance(child, (ast.FunctionDef, ast.AsyncFunctionDef, ast.ClassDef)):
+				walk(child, [*chain, child.name])
+			else:
+				out[child] = '.'.join(chain) or '<module>'
+				walk(child, chain)
+
+	walk(tree, [])
+	return out
+
+
+def _disposition(h: ast.ExceptHandler, where: str) -> str:
+	"""What the clause does with the exception. Unknown bodies are an error (the audit must understand every clause)."""
+	body = h.body
+	texts = [ast.unparse(x) for x in body]
+	if len(body) == 1 and isinstance(body[0], ast.Raise) and body[0].exc is None:
+		return '.reraise'
+	if len(body) == 1:
+		r = _raised_errors_class(body[0])
+		if r is not None:
+			return f'.wrap .{r[0]}'
+	if len(body) == 2 and isinstance(body[0], ast.If) and isinstance(body[1], ast.Raise) and isinstance(body[1].exc, ast.Name) and body[1].exc.id == h.name \
+			and len(body[0].body) == 1 and ast.unparse(body[0].body[0].exc if isinstance(body[0].body[0], ast.Raise) and body[0].body[0].exc else ast.Constant(0)) == f'{h.name}.__class__(node)':
+		return '.renode'
+	if len(body) >= 2 and isinstance(body[-1], ast.Raise) and body[-1].exc is None and all(isinstance(x, ast.Expr) for x in body[:-1]):
+		return '.cleanupReraise'   # e.g. `self.unload(module_path)` ; `raise`
+	if len(body) == 1 and isinstance(body[0], ast.Raise) and isinstance(body[0].exc, ast.Call) and ast.unparse(body[0].exc.func) == 'raise_error':
+		return '.wrapDynamic'      # lang/error.py `raises(...)`: the target class is a parameter
+	if texts == [f'print(ErrorRender({h.name}))']:
+		return '.print'
+	if texts == ['pass']:
+		return '.pass'
+	if len(body) == 1 and isinstance(body[0], ast.Return):
+		return '.value'            # the exception is turned into a result (lookup that may fail)
+	if texts == ['time.sleep(0.1)', 'self._flush(abs_filepath)']:
+		return '.retry'
+	raise TranslateError(f'{where}: except body not understood by the audit: {texts}')
+
+
+def audit_clauses() -> list[tuple[str, str, list[str], str, int, int]]:
+	"""(site identifier, `file:qualname`, caught atoms, disposition, position in its try) for every except clause of rogw/tranp on the audited
+	paths, in file/line order. Cross-checked against a tokenize-based count of the `except` keyword (independent of `ast`)."""
+	import io
+	import tokenize
+	root = os.path.join(REPO, 'rogw', 'tranp')
+	out: list[tuple[str, str, list[str], str, int, int]] = []
+	for dirpath, dirnames, files in os.walk(root):
+		dirnames[:] = sorted(d for d in dirnames if d not in AUDIT_EXCLUDE_DIRS and not d.startswith('__'))
+		for fn in sorted(files):
+			if not fn.endswith('.py'):
+				continue
+			path = os.path.join(dirpath, fn)
+			rel = os.path.relpath(path, root).replace(os.sep, '/')
+			if rel in AUDIT_EXCLUDE_FILES:
+				continue
+			with open(path, encoding='utf-8') as f:
+				text = f.read()
+			if 'except' not in text:
+				continue
+			tree = ast.parse(text)
+			quals = _qualnames(tree)
+			found = 0
+			tries = sorted((n for n in ast.walk(tree) if isinstance(n, ast.Try)), key=lambda n: n.lineno)
+			per_site: dict[str, int] = {}
+			for t in tries:
+				qual = quals.get(t, '<module>')
+				where = f'{rel}:{qual}'
+				try_no = per_site.get(qual, 0)
+				per_site[qual] = try_no + 1
+				for i, h in enumerate(t.handlers):
+					found += 1
+					if h.type is None:
+						raise TranslateError(f'{where}: bare `except:`')
+					types = h.type.elts if isinstance(h.type, ast.Tuple) else [h.type]
+					if len(types) == 1 and isinstance(types[0], ast.Name) and types[0].id == 'handle_errors':
+						atoms = []  # lang/error.py: the caught classes are a parameter of the decorator
+					else:
+						atoms = [_catch_atom(x, where) for x in types]
+					out.append((_site_ident(rel, qual), where, atoms, _disposition(h, where), try_no, i))
+			n_tok = sum(1 for tok in tokenize.generate_tokens(io.StringIO(text).readline) if tok.type == tokenize.NAME and tok.string == 'except')
+			if n_tok != found:
+				raise TranslateError(f'{rel}: ast sees {found} except clauses, tokenize sees {n_tok}')
+	# lang/error.py helpers must stay unused on the audited paths (their caught classes are dynamic)
+	for dirpath, dirnames, files in os.walk(root):
+		dirnames[:] = [d for d in dirnames if d not in AUDIT_EXCLUDE_DIRS]
+		for fn in files:
+			if fn.endswith('.py') and os.path.join(dirpath, fn) != os.path.join(root, 'lang', 'error.py'):
+				with open(os.path.join(dirpath, fn), encoding='utf-8') as f:
+					text = f.read()
+				if '@raises(' in text or 'Transaction(' in text:
+					raise TranslateError(f'{os.path.relpath(os.path.join(dirpath, fn), root)}: uses lang.error.raises/Transaction (dynamic except clause) — not covered by the audit')
+	return out
+
+
+# ---------------------------------------------------------------------------------------------
 # emit
 
 
-def render(errs: list[tuple[str, str, bool]], bis: list[tuple[str, str | None]], tables: dict[str, list[str]], flags: dict[str, bool]) -> str:
+def render(errs: list[tuple[str, str, bool]], bis: list[tuple[str, str | None]], tables: dict[str, list[str]], flags: dict[str, bool], audit: list[tuple[str, str, list[str], str, int, int]]) -> str:
 	L: list[str] = []
 	L.append('/-')
 	L.append('  GENERATED by verif/translate/gen_errors.py — do not edit.')
@@ -493,6 +619,44 @@ def render(errs: list[tuple[str, str, bool]], bis: list[tuple[str, str | None]],
 	for name in ['interactiveInnerCatch', 'interactiveOuterCatch', 'modulesLoadRollbackCatch', 'mainCatch']:
 		L.append(f'def {name} : List Atom := [' + ', '.join(tables[name]) + ']')
 	L.append('')
+	L.append('/-! ### audit: every `except` clause of rogw/tranp (without compatible/, test/ and the stand-alone tools bin/*_check.py, bin/analyze.py) -/')
+	L.append('')
+	sites: list[str] = []
+	for ident, _, _, _, _, _ in audit:
+		if ident not in sites:
+			sites.append(ident)
+	L.append('/-- the functions that contain a try statement (`file__qualname`) -/')
+	L.append('inductive Site')
+	for sname in sites:
+		L.append(f'  | {sname}')
+	L.append('  deriving DecidableEq, Repr')
+	L.append('')
+	L.append('/-- what an except clause does with the exception it caught -/')
+	L.append('inductive Disposition')
+	L.append('  | wrap (n : ErrName)   -- raise Errors.<n>(...)')
+	L.append('  | renode               -- Procedure.__emit: rebuild with the node / re-raise the same object')
+	L.append('  | reraise              -- bare `raise`')
+	L.append('  | cleanupReraise       -- clean-up calls, then bare `raise`')
+	L.append('  | wrapDynamic          -- lang/error.py raises(): `raise raise_error(e) from e` (target class is a parameter)')
+	L.append('  | print                -- print(ErrorRender(e))')
+	L.append('  | pass                 -- swallowed')
+	L.append('  | value                -- turned into a return value')
+	L.append('  | retry                -- the guarded call is repeated once')
+	L.append('  deriving DecidableEq, Repr')
+	L.append('')
+	L.append('structure Clause where')
+	L.append('  site : Site')
+	L.append('  tryNo : Nat             -- which try statement of the function (source order)')
+	L.append('  index : Nat             -- position among the clauses of its try statement')
+	L.append('  catches : List Atom     -- [] = the caught classes are a parameter (lang/error.py)')
+	L.append('  disp : Disposition')
+	L.append('  deriving DecidableEq, Repr')
+	L.append('')
+	L.append('def exceptAudit : List Clause := [')
+	for k, (ident, where, atoms, disp, try_no, idx) in enumerate(audit):
+		L.append(f"  ⟨.{ident}, {try_no}, {idx}, [{', '.join(atoms)}], {disp}⟩{',' if k + 1 < len(audit) else ''}  -- {where}")
+	L.append(']')
+	L.append('')
 	L.append('/-- Modules.load looks the module up again after the library modules were loaded -/')
 	L.append(f"def modulesLoadRechecks : Bool := {'true' if tables['modulesLoadRechecks'] else 'false'}")
 	L.append('')
@@ -524,7 +688,8 @@ def generate() -> list[dict[str, Any]]:
 		if need not in [k for k, _ in bis]:
 			raise TranslateError(f'builtin {need} missing')
 	flags = {**render_tables(), **pflags, 'modulesUnloadCascades': unload_shape()}
-	changed = write_if_changed(OUT, render(errs, bis, tables, flags))
+	audit = audit_clauses()
+	changed = write_if_changed(OUT, render(errs, bis, tables, flags, audit))
 	return [{
 		'file': os.path.relpath(OUT, os.path.dirname(GENERATED_DIR)),
 		'source': 'rogw/tranp/errors.py + except clauses of procedure.py / parser.py / bin/transpile.py + CPython builtins',
@@ -533,6 +698,7 @@ def generate() -> list[dict[str, Any]]:
 		'builtin_classes': len(bis),
 		'handlers': {k: len(v) for k, v in tables.items() if k != 'modulesLoadRechecks'},
 		'mem_branch_wrapped': bool(tables['parserMemHandlers']),
+		'audited_except_clauses': len(audit),
 		'modules_load_normalised': bool(tables['modulesLoadHandlers']),
 		'modules_unload_cascades': flags['modulesUnloadCascades'],
 		'source_completes_newline': flags['sourceCompletesNewline'],
